@@ -120,6 +120,12 @@ def test_points(info):
     # the smoke-test points of model_test (defaults) when the model declares none
     if not out:
         out.append((expand_pars(info.parameters, {}), [np.array([0.01, 0.1, 0.2], dtype="d")], "defaults"))
+    # one point with a dispersed size and a cutoff that removes the tails of the mesh: the scalar arguments of the
+    # kernel call (cutoff) travel in the kernel's precision too
+    pd = [p.name for p in info.parameters.call_parameters if p.polydisperse and p.type == "volume"]
+    if pd:
+        pars = expand_pars(info.parameters, {pd[0] + "_pd": 0.2, pd[0] + "_pd_n": 10, pd[0] + "_pd_nsigma": 3.0})
+        out.append((pars, [np.array([0.01, 0.1, 0.2], dtype="d")], "cutoff"))
     return out
 
 
@@ -130,7 +136,7 @@ def evaluate(model, pars, qv, label=""):
     try:
         if label.endswith(":Fq"):
             return np.asarray(call_Fq(kernel, dict(pars))[1], dtype="d")
-        return np.asarray(call_kernel(kernel, dict(pars)), dtype="d")
+        return np.asarray(call_kernel(kernel, dict(pars), cutoff=(0.01 if label == "cutoff" else 0.0)), dtype="d")
     finally:
         kernel.release()
 
